@@ -125,7 +125,7 @@ def gen_annotations(rng, tname, others, position, cbtype):
         if maybe(0.4, 0.15, tname == 'gpointer'):
             anns.append(('closure', [] if rng.random() < 0.9 else [('x', None)]))
     if rng.random() < 0.08:
-        anns.append(('attributes', [('org.k%d' % i, rng.choice(['v', 'long.value', '1'])) for i in range(rng.choice([1, 2]))]))
+        anns.append(('attributes', [('org.k%d' % i, rng.choice(['v', 'long.value', '1', 'ext=txt', 'a==b'])) for i in range(rng.choice([1, 2]))]))
     rng.shuffle(anns)
     if not anns and rng.random() < 0.3:
         return None
@@ -504,6 +504,49 @@ def scalar_clauses(ck, c):
                 ck.failing_input('(optional) on an in-parameter is emitted', case, detail=o)
 
 
+def constructor_clauses(ck, S, ET, rng):
+    """constructors (functions carrying a class prefix and returning it) and methods: an explicit, valid (transfer) on the return
+    value is what the GIR says, whatever default the role of the function brings with it"""
+    syms = world_symbols()
+    comments = []
+    want = {}
+    line = 2000
+    for i in range(rng.randint(4, 8)):
+        role = rng.choice(['constructor', 'constructor', 'method', 'function'])
+        ann = rng.choice([None, 'none', 'full', 'floating', 'none', 'full'])
+        if role == 'constructor':
+            name = 'foo_obj_new_%d' % i
+            syms.append(S.func(name, S.ptr(S.td('FooObj')), [S.param('n', S.td('gint'))], line=20 + i))
+        elif role == 'method':
+            name = 'foo_obj_peek_%d' % i
+            syms.append(S.func(name, S.ptr(S.td('FooObj')), [S.param('self', S.ptr(S.td('FooObj')))], line=20 + i))
+        else:
+            name = 'foo_lookup_%d' % i
+            syms.append(S.func(name, S.ptr(S.td('FooObj')), [S.param('n', S.td('gint'))], line=20 + i))
+        if ann is not None:
+            comments.append(('/**\n * %s:\n *\n * Returns: (transfer %s): the object\n */' % (name, ann), '/src/foo.c', line))
+            line += 10
+            want[name] = (role, ann, 'none' if ann == 'floating' else ann)
+    try:
+        r = S.run(syms, comments=comments, includes=['GLib', 'GObject', 'Gio'], dump=ET.ElementTree(ET.fromstring(DUMP)), warnings=False)
+    except (Exception, SystemExit) as e:      # noqa
+        ck.failing_input('the scanner fails on annotated constructors: %r' % (e,), dict(comments=[c[0] for c in comments]))
+        return
+    ns = S.gir_ns(r.root)
+    ck.count_case(dict(constructors=sorted(want.items())), kind='constructors')
+    for el in ns.iter():
+        cid = el.get(S.CNS + 'identifier')
+        if cid in want:
+            role, ann, expect = want[cid]
+            rv = el.find(S.CORE + 'return-value')
+            if role == 'constructor' and el.tag != S.CORE + 'constructor':
+                continue        # pairing is C04's subject
+            if rv is None or rv.get('transfer-ownership') != expect:
+                ck.failing_input('an explicit (transfer %s) on the return value of a %s is not what the GIR says' % (ann, role),
+                                 dict(function=cid, returns='FooObj*', annotation='Returns: (transfer %s)' % ann),
+                                 detail=None if rv is None else rv.attrib)
+
+
 def main(tier, seed):
     ck = Check('C01', tier, seed)
     ck.assumptions += ['declarations are given as SourceSymbol trees (the C lexer cannot be built here); annotations go through the '
@@ -517,6 +560,8 @@ def main(tier, seed):
     import xml.etree.ElementTree as ET
     rng = random.Random(seed)
     nb = 10 if tier == 'quick' else 150
+    for _ in range(6 if tier == 'quick' else 60):
+        constructor_clauses(ck, S, ET, rng)
     cases = []
     for b in range(nb):
         batch = [gen_callable(rng, i, cbtype=(i % 5 == 4)) for i in range(len(SPECIAL) if b == 0 else 0, 40)]
